@@ -26,7 +26,7 @@ from collections import deque
 
 from harness import tlc, graph
 from harness.tlaval import seq
-from harness.svskit import Scenario, NOSEQ, NOID
+from harness.svskit import Scenario, NOSEQ, NOID, ROOTID
 
 NODES3 = ['self', 'n1', 'n2']
 NODES5 = ['self', 'n1', 'n2', 'n3', 'n4']
@@ -45,7 +45,7 @@ DEV_SIG = {'devAgg': ('C18/SvsInst/TimerFire/SuppressionDecision/devAgg',
 
 
 MAX_DIAG = 40
-LAST_JUDGE = {'unexplained': 0}        # executions the last judge() call could not explain at all
+LAST_JUDGE = {'unexplained': 0, 'accepted': 0}   # of the last judge() call: not explained at all / accepted by the pure spec
 DEV_OF = {'devAgg': 'aggLocal', 'devNoSeq': 'noSeq'}     # choice name -> member of the constant Dev
 
 
@@ -158,9 +158,9 @@ def packet_class(p):
     es = p['es']
     if not es:
         return 'empty'
-    if any(e['id'] != NOID and e['seq'] == NOSEQ for e in es):
+    if any(e['id'] not in (NOID, ROOTID) and e['seq'] == NOSEQ for e in es):
         return 'noseq'
-    if any(e['id'] == NOID for e in es):
+    if any(e['id'] in (NOID, ROOTID) for e in es):
         return 'noid'
     return 'plain'
 
@@ -349,8 +349,8 @@ def stage_b(ctx):
         if bgs:
             ctx.note('B: background exceptions in the loop (not judged by C18): %s' % sorted(set(bgs))[:3])
         if cov.suspects:
-            fnd = judge(ctx, cov.suspects, nodes, 2, 10, 32768, 'c18-b%d' % ms, maxseq=ms + 1)
-            n_ok = len(cov.suspects) - LAST_JUDGE['unexplained'] - len({f['trace'] for f in fnd if f['dev']})
+            judge(ctx, cov.suspects, nodes, 2, 10, 32768, 'c18-b%d' % ms, maxseq=ms + 1)
+            n_ok = LAST_JUDGE['accepted']
             if n_ok:
                 ctx.note('B: %d executions left the impl-resolved graph but are behaviours of the open spec' % n_ok)
 
@@ -390,6 +390,7 @@ def judge(ctx, recs, nodes, sup, sync, rstep, name, maxseq=24, report=True):
         out.append({'trace': 0, 'at': 0, 'dev': False, 'sig': 'C18/SvsInst/trace-property/%s' % r1.violated,
                     'what': 'property %s violated on a recorded execution' % r1.violated, 'obj': {'errtrace': r1.errtrace}})
     bad = sorted((t - 1, l) for t, l in rej1.items())           # (trace index, first unexplained event)
+    LAST_JUDGE['accepted'] = len(recs) - len(bad)
     if bad:
         r2, rej2 = _validate(ctx, recs, [i for i, _ in bad], nodes, ('aggLocal', 'noSeq'), name + '-dev', maxseq)
         used = {}
@@ -493,7 +494,8 @@ def random_packet(rng, nodes, local, selfseq):
     if x < 0.12:                                   # over-claiming
         es = [e for e in es if e['id'] != me] + [{'id': me, 'seq': selfseq + rng.randint(1, 2)}]
     elif x < 0.18:                                 # entry without node id
-        es.insert(rng.randrange(len(es) + 1), {'id': NOID, 'seq': rng.choice([NOSEQ, rng.randint(0, MAXSEQ_C)])})
+        es.insert(rng.randrange(len(es) + 1), {'id': rng.choice([NOID, ROOTID]),
+                                               'seq': rng.choice([NOSEQ, rng.randint(0, MAXSEQ_C)])})
     elif x < 0.24 and es:                          # entry without sequence number
         es[rng.randrange(len(es))]['seq'] = NOSEQ
     rng.shuffle(es)
